@@ -7,6 +7,7 @@ import Voi.Props.FL.Encoding
 import Voi.Model.Montgomery
 import Voi.Gen.FL_CurveF64_MontgomerySetEdwards
 import Voi.Gen.FL_CurveF64_MontgomeryFromProjective
+import Voi.Gen.FL_CurveF64_SetMontgomery
 namespace Voi.Props.FL
 open Voi Voi.Spec Voi.FIR Voi.Gen.CurveF64 Voi.Model.Montgomery
 open Voi.Props.C07 hiding toZ
@@ -30,5 +31,20 @@ theorem MontgomeryFromProjective_eq (U W : Nat) :
     MontgomeryFromProjective_sh U W = [leNat (fromProjective ⟨U, W⟩)] := by
   unfold MontgomeryFromProjective_sh fromProjective
   simp only [FIR.toBytes, leNat_feToBytes]
+
+end Voi.Props.FL
+
+namespace Voi.Props.FL
+open Voi Voi.Spec Voi.FIR Voi.Gen.CurveF64
+
+/-- **(*EdwardsPoint).SetMontgomery** (as regenerated): reject u = −1, otherwise decompress the encoding of
+y = (u − 1)/(u + 1) with the requested sign bit — i.e. the regenerated `SetCompressedY` (= `Pt.decode`, `Encoding.SetCompressedY_eq`)
+applied to that 32-byte string -/
+theorem SetMontgomery_decomp (n s : Nat) :
+    SetMontgomery_tsh n s =
+      if FIR.cond (feq (fromBytes n) 57896044618658097711785492504343953926634992332820282019728792003956564819948) false then none
+      else SetCompressedY_tsh (xorTop (toBytes (Fp.mul (Fp.sub (fromBytes n) 1) (Fp.inv (Fp.add (fromBytes n) 1)))) s) := by
+  unfold SetMontgomery_tsh SetCompressedY_tsh
+  simp only []
 
 end Voi.Props.FL
